@@ -215,12 +215,25 @@ pub fn run_hostile(a: &Args) {
         if !thorough && msg.len() > 120 && i % 4 != 0 {
             continue;
         }
+        // a base message on which the parser hangs costs 5 s (and a spinning thread) per variant: two hangs are
+        // evidence enough, the rest of that base is skipped
+        let hangs_before = dog.hangs;
         for cut in 0..msg.len() {
+            if dog.hangs > hangs_before + 1 {
+                break;
+            }
             if dense || cut < 80 || cut % 16 == 0 || cut + 4 > msg.len() {
                 emit(&mut out, &mut st, &mut dog, &format!("cut {tn}"), &msg[..cut]);
             }
         }
+        // the unmodified base itself
+        if dog.hangs <= hangs_before + 1 {
+            emit(&mut out, &mut st, &mut dog, &format!("base {tn}"), msg);
+        }
         for pos in 0..msg.len() {
+            if dog.hangs > hangs_before + 1 {
+                break;
+            }
             if dense || pos < 80 || pos % 16 == 0 || pos + 4 > msg.len() {
                 for d in [1u8, 255] {
                     let mut m = msg.clone();
